@@ -42,13 +42,14 @@ const (
 	c14HdrLen      = 36
 	c14FadtDsdt    = 40  // ACPI: FADT.DSDT, 4 bytes
 	c14FadtXDsdt   = 140 // ACPI: FADT.X_DSDT, 8 bytes
+	c14FadtOff152  = 152 // ACPI: address part of FADT.X_PM1a_EVT_BLK; see sigOff152
 )
 
 // placement kinds of a table in the table arena
 const (
 	c14PlRandom = iota // fresh page group, random byte offset in its first page
 	c14PlPageStart
-	c14PlPageEnd      // last byte is the last byte of a page, next page is a hole
+	c14PlPageEnd      // last byte is the last byte of a page (or one byte either side of that), next page is a hole
 	c14PlHdrStraddle  // the 36-byte header crosses a page boundary
 	c14PlBodyStraddle // header in one page, the body crosses into the next
 	c14PlPacked       // directly behind the previous object (0-17 bytes gap)
@@ -133,6 +134,7 @@ type c14Image struct {
 	listed    []*c14Obj
 	fadt      *c14Obj
 	dsdt      *c14Obj
+	trap      *c14Obj
 	all       []*c14Obj
 	expMap    map[string]uintptr
 	expSkip   []string
@@ -308,6 +310,12 @@ func (al *c14Alloc) place(n int, kind int, arg uint64) uintptr {
 			start = page
 		case c14PlPageEnd:
 			start = page + c14Up(un) - un
+			switch arg % 4 {
+			case 2:
+				start++ // exactly one byte in the following page
+			case 3:
+				start-- // one byte short of the page end
+			}
 		case c14PlHdrStraddle:
 			start = page + c14Page - uintptr(1+arg%35)
 		case c14PlBodyStraddle:
@@ -343,6 +351,20 @@ type c14Env struct {
 	mmu    *c14MMU
 	seen   map[string]int64
 	run    *vlib.Run
+	hard   bool
+}
+
+// viol reports a violation; everything except the one known cause that the
+// harness isolates under its own signature makes the case "hard failed".
+func (e *c14Env) viol(c *vlib.Case, sig string, detail interface{}) {
+	if !strings.HasPrefix(sig, "fadt:dsdt-pointer-taken-from-offset-152") {
+		e.hard = true
+	}
+	c.Violation(sig, detail)
+}
+
+func (e *c14Env) violf(c *vlib.Case, sig string, format string, a ...interface{}) {
+	e.viol(c, sig, fmt.Sprintf(format, a...))
 }
 
 func (e *c14Env) count(name string, d int64) {
@@ -415,6 +437,10 @@ func (e *c14Env) build(sp *c14Spec) *c14Image {
 	altRoot := newObj(&c14TSpec{Sig: altSig, Len: c14HdrLen + altEntry, Kind: c14PlPacked, Arg: 8}, "alt-root")
 	dcoyR := newObj(&c14TSpec{Sig: "RSDT", Len: c14HdrLen + 4, Kind: c14PlPacked, Arg: 0}, "decoy-root")
 	dcoyX := newObj(&c14TSpec{Sig: "XSDT", Len: c14HdrLen + 8, Kind: c14PlPacked, Arg: 12}, "decoy-root")
+	// what the 8 bytes at offset 152 of the FADT (in a real FADT: the address
+	// part of X_PM1a_EVT_BLK) lead to if they are taken for a table pointer
+	trap := newObj(&c14TSpec{Sig: "TRAP", Len: 48, Kind: c14PlInPage, Arg: sp.JunkSeed >> 8}, "trap")
+	img.trap = trap
 
 	var tobjs []*c14Obj
 	for i := range sp.Tables {
@@ -427,6 +453,10 @@ func (e *c14Env) build(sp *c14Spec) *c14Image {
 		img.listed = append(img.listed, o)
 		if i == sp.FadtIdx {
 			img.fadt = o
+			if o.Len < c14FadtOff152+8 {
+				// keep the bytes up to offset 160 clear of other objects
+				al.cur = o.Addr + c14FadtOff152 + 8
+			}
 		}
 	}
 	if sp.Dsdt != nil {
@@ -488,6 +518,7 @@ func (e *c14Env) build(sp *c14Spec) *c14Image {
 		write(o, b, nil)
 	}
 	write(alt0, c14Table("ALT0", alt0.Len, 1, nextSeed()), nil)
+	write(trap, c14Table("TRAP", trap.Len, 1, nextSeed()), nil)
 	write(dcoy, c14Table("DCOY", dcoy.Len, 1, nextSeed()), nil)
 	mkRoot(altRoot, altEntry, []*c14Obj{alt0})
 	mkRoot(dcoyR, 4, []*c14Obj{dcoy})
@@ -512,6 +543,13 @@ func (e *c14Env) build(sp *c14Spec) *c14Image {
 				} else {
 					binary.LittleEndian.PutUint64(b[c14FadtXDsdt:], 0)
 				}
+			}
+			var tp [8]byte
+			binary.LittleEndian.PutUint64(tp[:], uint64(trap.Addr))
+			if t.Len >= c14FadtOff152+8 {
+				copy(b[c14FadtOff152:], tp[:])
+			} else {
+				c14Put(o.Addr+c14FadtOff152, tp[:]) // memory behind the table
 			}
 		}
 		write(o, b, t)
@@ -621,7 +659,7 @@ func (e *c14Env) build(sp *c14Spec) *c14Image {
 		}
 	}
 	for _, o := range img.all {
-		if o.Role == "aux" || o.Role == "alt-root" || o.Role == "decoy-root" || o.Role == "orphan" {
+		if c14Unreferenced(o.Role) {
 			continue
 		}
 		if (o.Addr&(c14Page-1))+uintptr(o.Len) > c14Up(uintptr(o.Len)) || (o.Addr&(c14Page-1))+c14HdrLen > c14Page {
@@ -839,6 +877,25 @@ func c14Gen(r *vlib.Rand, idx int) *c14Spec {
 	return sp
 }
 
+func c14Unreferenced(role string) bool {
+	return role == "aux" || role == "alt-root" || role == "decoy-root" || role == "orphan" || role == "trap"
+}
+
+// c14SigOff152 is reported when the driver takes the 8 bytes at offset 152 of
+// a FADT for the DSDT pointer. X_DSDT is at offset 140 (ACPI 6.2 table 5-33);
+// 152 is where Go's alignment rules put table.FADT.Ext.Dsdt. The generator
+// stores the address of a checksum-valid table "TRAP" at offset 152 so that
+// this one cause always shows up under this one signature.
+func c14SigOff152(rev uint8) string {
+	switch {
+	case rev >= 2:
+		return "fadt:dsdt-pointer-taken-from-offset-152-not-x_dsdt-at-140:revision2plus"
+	case rev == 1:
+		return "fadt:dsdt-pointer-taken-from-offset-152-not-x_dsdt-at-140:revision1"
+	}
+	return "fadt:dsdt-pointer-taken-from-offset-152-not-x_dsdt-at-140:revision0"
+}
+
 // ---------------------------------------------------------------------------
 // running one image
 
@@ -879,7 +936,7 @@ func (e *c14Env) classify(img *c14Image, phase string, pv interface{}, stack str
 				det["table_len"] = o.Len
 				det["offset_in_table"] = a - o.Addr
 				det["placement"] = c14PlNames[o.Kind]
-				if o.Role == "aux" || o.Role == "alt-root" || o.Role == "decoy-root" || o.Role == "orphan" {
+				if c14Unreferenced(o.Role) {
 					return "fault:" + phase + ":touched-table-nothing-valid-points-to", det
 				}
 				return "fault:" + phase + ":table-byte-touched-before-its-page-was-mapped", det
@@ -892,6 +949,7 @@ func (e *c14Env) classify(img *c14Image, phase string, pv interface{}, stack str
 
 func (e *c14Env) runImage(c *vlib.Case, run *vlib.Run, sp *c14Spec) {
 	img := e.build(sp)
+	e.hard = false
 	m := e.mmu
 	*m = c14MMU{arenas: m.arenas, present: map[uintptr]bool{}}
 	rsdpLocationLow, rsdpLocationHi = img.low, img.hi
@@ -925,7 +983,7 @@ func (e *c14Env) runImage(c *vlib.Case, run *vlib.Run, sp *c14Spec) {
 	probeOK := true
 	if pv != nil {
 		sig, det := e.classify(img, "probe", pv, st)
-		c.Violation(sig, det)
+		e.viol(c, sig, det)
 		probeOK = false
 	} else {
 		switch {
@@ -935,7 +993,7 @@ func (e *c14Env) runImage(c *vlib.Case, run *vlib.Run, sp *c14Spec) {
 			if got != nil {
 				who = img.labels[got.rsdtAddr]
 			}
-			c.Violationf("probe:driver-returned-without-a-valid-root-pointer", "no checksum-valid root pointer on a 16-byte boundary in the image, but the probe returned %+v (points to: %s)", got, who)
+			e.violf(c, "probe:driver-returned-without-a-valid-root-pointer", "no checksum-valid root pointer on a 16-byte boundary in the image, but the probe returned %+v (points to: %s)", got, who)
 		case !sp.HasRSDP:
 			e.count("probe_none_expected_none_found", 1)
 		case isNil:
@@ -944,11 +1002,11 @@ func (e *c14Env) runImage(c *vlib.Case, run *vlib.Run, sp *c14Spec) {
 			if sp.Rev != 0 {
 				sig = "probe:valid-root-pointer-not-found:revision1plus"
 			}
-			c.Violationf(sig, "checksum-valid revision-%d root pointer at %#x (slot %d of the search area %#x-%#x, %d bytes before its end) was not found",
+			e.violf(c, sig, "checksum-valid revision-%d root pointer at %#x (slot %d of the search area %#x-%#x, %d bytes before its end) was not found",
 				sp.Rev, img.rsdpAddr, sp.Slot, img.low, img.hi, img.hi+1-img.rsdpAddr)
 		case got == nil:
 			probeOK = false
-			c.Violationf("probe:unexpected-driver-type", "probe returned something that is not *acpiDriver")
+			e.violf(c, "probe:unexpected-driver-type", "probe returned something that is not *acpiDriver")
 		default:
 			if got.rsdtAddr != img.rootAddr {
 				probeOK = false
@@ -956,11 +1014,11 @@ func (e *c14Env) runImage(c *vlib.Case, run *vlib.Run, sp *c14Spec) {
 				if who == "" {
 					who = "nothing-known"
 				}
-				c.Violationf("probe:wrong-root-table:"+who, "revision %d root pointer at %#x: expected root table %#x, driver has %#x (%s)", sp.Rev, img.rsdpAddr, img.rootAddr, got.rsdtAddr, who)
+				e.violf(c, "probe:wrong-root-table:"+who, "revision %d root pointer at %#x: expected root table %#x, driver has %#x (%s)", sp.Rev, img.rsdpAddr, img.rootAddr, got.rsdtAddr, who)
 			}
 			if got.useXSDT != img.useX {
 				probeOK = false
-				c.Violationf("probe:wrong-entry-width", "revision %d: expected 64-bit root table = %v, driver has %v", sp.Rev, img.useX, got.useXSDT)
+				e.violf(c, "probe:wrong-entry-width", "revision %d: expected 64-bit root table = %v, driver has %v", sp.Rev, img.useX, got.useXSDT)
 			}
 			if probeOK {
 				e.count("probe_found_ok", 1)
@@ -975,15 +1033,15 @@ func (e *c14Env) runImage(c *vlib.Case, run *vlib.Run, sp *c14Spec) {
 		}
 	}
 	if m.nonIdentity > 0 {
-		c.Violationf("probe:search-area-mapping-not-identity", "%d mapFn calls with page != frame", m.nonIdentity)
+		e.violf(c, "probe:search-area-mapping-not-identity", "%d mapFn calls with page != frame", m.nonIdentity)
 	}
 	if left := m.presentIn(e.search); len(left) > 0 {
-		c.Violationf("probe:search-area-left-mapped", "%d pages of the search area are still mapped after the probe returned (first: page %#x)", len(left), left[0])
+		e.violf(c, "probe:search-area-left-mapped", "%d pages of the search area are still mapped after the probe returned (first: page %#x)", len(left), left[0])
 	} else {
 		e.count("search_area_unmapped_again", 1)
 	}
 	if pv == nil && m.mapCalls == 0 {
-		c.Violationf("probe:nothing-mapped", "probe made no mapFn call")
+		e.violf(c, "probe:nothing-mapped", "probe made no mapFn call")
 	}
 
 	// ---- phase 2: enumeration. If the probe went wrong it was reported
@@ -1005,27 +1063,52 @@ func (e *c14Env) runImage(c *vlib.Case, run *vlib.Run, sp *c14Spec) {
 	if pv != nil {
 		sig, det := e.classify(img, "init", pv, st)
 		det["log_so_far"] = log.String()
-		c.Violation(sig, det)
+		if f, ok := pv.(c14Faulter); ok && img.fadt != nil && !img.fadt.Bad && img.fadt.Len < c14FadtOff152+8 &&
+			f.Addr() >= img.fadt.Addr+c14FadtOff152 && f.Addr() < img.fadt.Addr+c14FadtOff152+8 {
+			det["fadt_addr"] = fmt.Sprintf("%#x", img.fadt.Addr)
+			det["fadt_len"] = img.fadt.Len
+			sig = c14SigOff152(sp.Rev)
+			e.count("off152_read_faulted_behind_short_fadt", 1)
+		}
+		e.viol(c, sig, det)
 		e.count("init_faults", 1)
 		return
 	}
 	if ierr != nil {
-		c.Violationf("init:error-returned", "DriverInit returned %q for an image with a valid root table", ierr.Message)
+		e.violf(c, "init:error-returned", "DriverInit returned %q for an image with a valid root table", ierr.Message)
 		return
 	}
+	off152 := false
 	gotMap := map[string]uintptr{}
 	for k, h := range drv.tableMap {
 		gotMap[k] = uintptr(unsafe.Pointer(h))
+	}
+	if g, ok := gotMap["TRAP"]; ok && g == img.trap.Addr && img.fadt != nil {
+		// one cause, one signature; the rest of the image is still compared
+		off152 = true
+		e.count("off152_followed_to_trap_table", 1)
+		e.violf(c, c14SigOff152(sp.Rev), "revision %d, checksum-valid FADT at %#x (%d bytes, %s; X_DSDT at offset 140 = %#x): the driver registered the table that the 8 bytes at offset 152 point to (%#x) and not the DSDT at %#x",
+			sp.Rev, img.fadt.Addr, img.fadt.Len, c14FadtNames[sp.FadtMode], c14U64At(img.fadt, c14FadtXDsdt), g, img.dsdt.Addr)
+		delete(gotMap, "TRAP")
+		if sp.DsdtListAt < 0 {
+			delete(img.expMap, img.dsdt.Sig)
+			for i, s := range img.expSkip {
+				if s == img.dsdt.Sig {
+					img.expSkip = append(img.expSkip[:i:i], img.expSkip[i+1:]...)
+					break
+				}
+			}
+		}
 	}
 	for sig, addr := range img.expMap {
 		g, ok := gotMap[sig]
 		switch {
 		case !ok && sig == "DSDT":
-			c.Violationf("tablemap:missing-dsdt-of-valid-fadt", "DSDT at %#x (checksum ok) referenced by checksum-valid FADT (%s, revision %d) is not registered; registered: %v", addr, c14FadtNames[sp.FadtMode], sp.Rev, c14Keys(gotMap))
+			e.violf(c, "tablemap:missing-dsdt-of-valid-fadt", "DSDT at %#x (checksum ok) referenced by checksum-valid FADT (%s, revision %d) is not registered; registered: %v", addr, c14FadtNames[sp.FadtMode], sp.Rev, c14Keys(gotMap))
 		case !ok:
-			c.Violationf("tablemap:missing-valid-table", "%s at %#x (bytes sum to 0, listed at position %d of %d) is not registered; registered: %v", sig, addr, img.pos(sig), len(img.listed), c14Keys(gotMap))
+			e.violf(c, "tablemap:missing-valid-table", "%s at %#x (bytes sum to 0, listed at position %d of %d) is not registered; registered: %v", sig, addr, img.pos(sig), len(img.listed), c14Keys(gotMap))
 		case g != addr:
-			c.Violationf("tablemap:wrong-address", "%s registered at %#x, the image has it at %#x", sig, g, addr)
+			e.violf(c, "tablemap:wrong-address", "%s registered at %#x, the image has it at %#x", sig, g, addr)
 		}
 	}
 	for sig, g := range gotMap {
@@ -1035,13 +1118,13 @@ func (e *c14Env) runImage(c *vlib.Case, run *vlib.Run, sp *c14Spec) {
 		o := img.find(sig)
 		switch {
 		case o == nil:
-			c.Violationf("tablemap:registered-unknown-signature", "%q registered at %#x; the image has no such table", sig, g)
+			e.violf(c, "tablemap:registered-unknown-signature", "%q registered at %#x; the image has no such table", sig, g)
 		case o.Bad && (o.Role == "table" || o.Role == "fadt" || o.Role == "dsdt" && (sp.DsdtListAt >= 0 || (img.fadt != nil && !img.fadt.Bad))):
-			c.Violationf("tablemap:registered-table-with-bad-checksum", "%s at %#x is registered although its bytes do not sum to 0 (byte %d of %d changed)", sig, o.Addr, img.flipOf(sig), o.Len)
+			e.violf(c, "tablemap:registered-table-with-bad-checksum", "%s at %#x is registered although its bytes do not sum to 0 (byte %d of %d changed)", sig, o.Addr, img.flipOf(sig), o.Len)
 		case o.Role == "dsdt":
-			c.Violationf("tablemap:registered-dsdt-of-invalid-fadt", "DSDT at %#x is registered although the FADT pointing to it has a bad checksum", o.Addr)
+			e.violf(c, "tablemap:registered-dsdt-of-invalid-fadt", "DSDT at %#x is registered although the FADT pointing to it has a bad checksum", o.Addr)
 		default:
-			c.Violationf("tablemap:registered-unlisted-table", "%s (%s) at %#x is registered but neither listed by the root table nor the DSDT of a valid FADT", sig, o.Role, o.Addr)
+			e.violf(c, "tablemap:registered-unlisted-table", "%s (%s) at %#x is registered but neither listed by the root table nor the DSDT of a valid FADT", sig, o.Role, o.Addr)
 		}
 	}
 	lines := strings.Split(log.String(), "\n")
@@ -1053,7 +1136,7 @@ func (e *c14Env) runImage(c *vlib.Case, run *vlib.Run, sp *c14Spec) {
 			}
 		}
 		if !found {
-			c.Violationf("log:skipped-table-not-reported", "%s has a bad checksum and was skipped, but no line of the init log mentions it; log:\n%s", sig, log.String())
+			e.violf(c, "log:skipped-table-not-reported", "%s has a bad checksum and was skipped, but no line of the init log mentions it; log:\n%s", sig, log.String())
 		} else {
 			e.count("skip_reports_seen", 1)
 		}
@@ -1089,6 +1172,8 @@ func (e *c14Env) runImage(c *vlib.Case, run *vlib.Run, sp *c14Spec) {
 	e.count("tables_spanning_one_page_more_than_ceil_len", int64(img.straddles))
 	if img.fadt != nil {
 		switch {
+		case off152:
+			e.count("dsdt_not_reached_because_of_offset_152", 1)
 		case img.fadt.Bad:
 			e.count("fadt_bad_dsdt_not_followed", 1)
 		case img.dsdt.Bad:
@@ -1097,7 +1182,7 @@ func (e *c14Env) runImage(c *vlib.Case, run *vlib.Run, sp *c14Spec) {
 			e.count("dsdt_registered_via_fadt", 1)
 		}
 	}
-	if !c.Failed() && len(img.listed) >= 1 && (len(sp.Decoys) > 0 || len(img.expSkip) > 0 || img.fadt != nil) {
+	if !e.hard && len(img.listed) >= 1 && (len(sp.Decoys) > 0 || len(img.expSkip) > 0 || img.fadt != nil) {
 		fp := vlib.NewFP().Int(int(sp.Rev)).Int(sp.Slot).Int(sp.SearchPages).Int(sp.LowShift).Int(sp.FadtMode).Int(sp.DsdtListAt)
 		for _, d := range sp.Decoys {
 			fp = fp.Int(d.Slot).Int(d.Kind).Int(int(d.Rev))
@@ -1143,6 +1228,13 @@ func (img *c14Image) flipOf(sig string) int {
 		return img.spec.Dsdt.Flip
 	}
 	return -1
+}
+
+func c14U64At(o *c14Obj, off int) uint64 {
+	if o.Len < off+8 {
+		return 0
+	}
+	return binary.LittleEndian.Uint64(vlib.BytesAt(o.Addr+uintptr(off), 8))
 }
 
 func c14Keys(m map[string]uintptr) string {
@@ -1230,7 +1322,7 @@ func TestVerifC14(t *testing.T) {
 	old := debug.SetPanicOnFault(true)
 	defer debug.SetPanicOnFault(old)
 
-	run.Cases(run.N(2500, 160000), func(c *vlib.Case) {
+	run.Cases(run.N(2500, 640000), func(c *vlib.Case) {
 		env.runImage(c, run, c14Gen(c.R, c.Idx))
 	})
 
